@@ -858,8 +858,22 @@ fn partition(
     // the priorities given at the end of the argument list, therefore we're applying
     // them in reversed order.
     let mut sort_errors = Vec::new();
+    // `top` and `bottom` refer to the order in the input file, so when chained with other
+    // priorities they must be sort keys on the original position, not a reversal of whatever
+    // order the lower-precedence priorities produced.
+    let input_order: HashMap<Path, usize> = file_sub_groups
+        .iter()
+        .enumerate()
+        .map(|(i, g)| (g.files[0].path.clone(), i))
+        .collect();
     for priority in config.priority.iter().rev() {
-        sort_errors.extend(sort_by_priority(&mut file_sub_groups, priority));
+        match priority {
+            Priority::Top => {
+                file_sub_groups.sort_by_key(|g| Reverse(input_order[&g.files[0].path]))
+            }
+            Priority::Bottom => file_sub_groups.sort_by_key(|g| input_order[&g.files[0].path]),
+            _ => sort_errors.extend(sort_by_priority(&mut file_sub_groups, priority)),
+        }
     }
 
     if !sort_errors.is_empty() {
